@@ -11,7 +11,9 @@ spec       direct contract checks on every run, independent of the model (counts
 import json
 import os
 import re
+import shutil
 import subprocess
+import tempfile
 import threading
 import time
 from concurrent.futures import ThreadPoolExecutor
@@ -513,7 +515,7 @@ def canon(line):
     return "other"
 
 
-def run_script(exe, steps, exit_timeout=15.0):
+def run_script(exe, steps, exit_timeout=10.0):
     """Drive one engine process.  Returns dict(events=[...], rc, hang, exit_latency)."""
     p = subprocess.Popen([exe], stdin=subprocess.PIPE, stdout=subprocess.PIPE, stderr=subprocess.DEVNULL, bufsize=0)
     lock = threading.Lock()
@@ -723,6 +725,14 @@ def contract_check(steps, res):
     return [b for b in bad if not (b in seen or seen.add(b))], garbled
 
 
+def judge(steps, res):
+    """contract_check minus the crash that is the known `ponderhit`-before-engine finding"""
+    fails, garbled = contract_check(steps, res)
+    if res["rc"] < 0 and ponderhit_before_engine(res):
+        fails = [f for f in fails if not f.startswith("killed by signal")]
+    return fails, garbled
+
+
 def script_text(steps):
     out = []
     for s in steps:
@@ -753,37 +763,42 @@ def check_traces(ml_exe, lines):
     return res
 
 
-def evaluate(exe, ml_exe, g, steps, tries=1):
+def evaluate(exe, ml_exe, g, steps, exit_timeout=8.0):
     """run + trace check + contract check; returns (res, verdict, fails)"""
-    res = run_script(exe, steps)
+    res = run_script(exe, steps, exit_timeout=exit_timeout)
     v = check_traces(ml_exe, [trace_line(g, res)])[0]
-    fails, garbled = contract_check(steps, res)
+    fails, garbled = judge(steps, res)
     return res, v, fails
 
 
-def shrink(exe, ml_exe, g, steps, pred, budget=40):
-    """delta-debug a script; pred(res, verdict, fails) -> still failing"""
+def shrink(exe, ml_exe, g, steps, pred, budget=40, attempts=2, exit_timeout=8.0):
+    """delta-debug a script (chunks of decreasing size, the final EOF is kept);
+    pred(res, verdict, fails) -> still failing.  Timing dependent: two attempts per candidate."""
     cur = list(steps)
-    changed = True
-    while changed and budget > 0:
-        changed = False
-        i = len(cur) - 1
-        while i >= 0 and budget > 0:
-            if cur[i][0] == "eof":
-                i -= 1
+    chunk = max(1, len(cur) // 2)
+    while budget > 0 and chunk >= 1:
+        i = 0
+        progressed = False
+        while i < len(cur) and budget > 0:
+            cand = cur[:i] + [s for s in cur[i:i + chunk] if s[0] == "eof"] + cur[i + chunk:]
+            if len(cand) == len(cur):
+                i += chunk
                 continue
-            cand = cur[:i] + cur[i + 1:]
             budget -= 1
             ok = False
-            for _ in range(2):      # timing dependent: two attempts
-                r, v, f = evaluate(exe, ml_exe, g, cand)
+            for _ in range(attempts):
+                r, v, f = evaluate(exe, ml_exe, g, cand, exit_timeout=exit_timeout)
                 if pred(r, v, f):
                     ok = True
                     break
             if ok:
                 cur = cand
-                changed = True
-            i -= 1
+                progressed = True
+            else:
+                i += chunk
+        if chunk == 1 and not progressed:
+            break
+        chunk = chunk // 2 if chunk > 1 else (1 if progressed else 0)
     return cur
 
 
@@ -810,8 +825,22 @@ def run(ctx):
                        "interleaving of output lines written by two threads"]
     ok, info = coqbuild.prove(ctx, PROP_FILE, extra_targets=["Ctl/CtlExamples.vo"], timeout=ctx.scale(1500, 3600))
     proof_broken = not ok
+    ctx.log("proof stage done (ok=%s)" % ok)
     exe = cbuild.build_engine(net_kind="material", net_seed=1)
+    ctx.log("engine binary built from %s" % REPO)
     ml_exe = coqbuild.extract("ExtractCtl.v", "ctl_driver.ml", "ctl_driver")
+    ctx.log("checker extracted")
+    # the shared build caches are purged by concurrently running checks: work on private copies
+    tmp = tempfile.mkdtemp(prefix="c05-")
+    try:
+        exe = shutil.copy(exe, os.path.join(tmp, "texel"))
+        ml_exe = shutil.copy(ml_exe, os.path.join(tmp, "ctl_driver"))
+        run_checks(ctx, exe, ml_exe, proof_broken, info)
+    finally:
+        shutil.rmtree(tmp, ignore_errors=True)
+
+
+def run_checks(ctx, exe, ml_exe, proof_broken, info):
 
     # --- tie of the declared option list
     rc, out, err = sh([ml_exe], input="#options\n", timeout=60)
@@ -903,10 +932,9 @@ def run(ctx):
         if n_go >= 1 and during >= 1:
             ctx.nontrivial("\n".join(e[1] for e in sends))
         max_lat = max(max_lat, res["exit_latency"]) if not res["hang"] else max_lat
-        fails, garbled = contract_check(steps, res)
+        fails, garbled = judge(steps, res)
         if res["rc"] < 0 and ponderhit_before_engine(res):
             known_crash += 1
-            fails = [f for f in fails if not f.startswith("killed by signal")]
             ctx.count("crash_ponderhit_before_engine")
         if fails:
             failed.append((cls, steps, res, v, fails))
@@ -942,13 +970,15 @@ def run(ctx):
     # --- (5) finder = the direct contract checks on the real binary (implementation vs the
     #     property itself); scripts that failed are re-run and shrunk
     reported = 0
-    for cls, steps, res, v, fails in failed[:3]:
+    for cls, steps, res, v, fails in failed[:2]:
         what0 = fails[0]
         ctx.log("contract failure (%s): %s" % (cls, "; ".join(fails[:3])))
 
         def pred(r, vv, f, what0=what0):
             return any(x.split(" (")[0][:25] == what0.split(" (")[0][:25] for x in f)
-        small = shrink(exe, ml_exe, g, steps, pred, budget=ctx.scale(30, 120))
+        hang = res["hang"]
+        small = shrink(exe, ml_exe, g, steps, pred, budget=ctx.scale(20 if hang else 30, 120), attempts=1 if hang else 2,
+                       exit_timeout=5.0 if hang else 8.0)
         r2, v2, f2 = evaluate(exe, ml_exe, g, small)
         reproduced = pred(r2, v2, f2)
         ctx.violation("UCI contract broken on the real engine: %s" % "; ".join(fails[:3]),
@@ -959,7 +989,7 @@ def run(ctx):
                       key="script:" + ";".join(x for x in script_text(small if reproduced else steps)))
         reported += 1
     failed_ids = {id(f[1]) for f in failed}
-    for cls, steps, res, v in rejected[:3]:
+    for cls, steps, res, v in rejected[:2]:
         if id(steps) in failed_ids:
             continue
         idx = int(v.split()[1])
@@ -984,8 +1014,9 @@ def run(ctx):
 def replay(ctx, body):
     r = body.get("replay", {})
     steps = steps_from_json(r.get("steps") or steps_to_json(WITNESS_PONDERHIT))
-    exe = cbuild.build_engine(net_kind="material", net_seed=1)
-    ml_exe = coqbuild.extract("ExtractCtl.v", "ctl_driver.ml", "ctl_driver")
+    tmp = tempfile.mkdtemp(prefix="c05-")
+    exe = shutil.copy(cbuild.build_engine(net_kind="material", net_seed=1), os.path.join(tmp, "texel"))
+    ml_exe = shutil.copy(coqbuild.extract("ExtractCtl.v", "ctl_driver.ml", "ctl_driver"), os.path.join(tmp, "ctl_driver"))
     res = run_script(exe, steps)
     print("script:")
     for l in script_text(steps):
@@ -996,3 +1027,4 @@ def replay(ctx, body):
     print("contract failures / garbled:", contract_check(steps, res))
     for e in res["events"][:200]:
         print("   ", e)
+    shutil.rmtree(tmp, ignore_errors=True)
